@@ -28,6 +28,7 @@ type superiorMsgHandler func(context.Context, uuid.UUID, protocol.Message) error
 
 type baseSuperior struct {
 	l          sync.RWMutex
+	latestLock sync.Mutex // publishing a new latest task vs. replaying it to a new subscriber
 	pool       *ants.Pool
 	collectors map[uuid.UUID]Collector
 	handlers   map[protocol.MsgType]superiorMsgHandler
@@ -153,6 +154,10 @@ func NewLocalSuperior() *LocalSuperior {
 }
 
 func (ls *LocalSuperior) Subscribe(ctx context.Context, c Collector) {
+	// registering and replaying is atomic with respect to AddTask, otherwise a collector
+	// that subscribes while a task is being broadcast receives it twice
+	ls.latestLock.Lock()
+	defer ls.latestLock.Unlock()
 	ls.baseSuperior.Subscribe(ctx, c)
 	if task := ls.latestTask; task != nil {
 		ls.Send(ctx, c.ID(), task)
@@ -166,8 +171,10 @@ func (ls *LocalSuperior) AddTask(ctx context.Context, collectorID uuid.UUID, req
 	ls.taskCacheLock.Unlock()
 
 	if collectorID == uuid.Nil {
+		ls.latestLock.Lock()
 		ls.latestTask = req
 		ls.Broadcast(ctx, req)
+		ls.latestLock.Unlock()
 	} else {
 		ls.Send(ctx, collectorID, req)
 	}
@@ -185,9 +192,11 @@ func (ls *LocalSuperior) RemoveTask(id uuid.UUID) {
 	ch := v.(chan *CollectorMsg)
 	close(ch)
 	ls.taskCache.Remove(id)
+	ls.latestLock.Lock()
 	if ls.latestTask != nil && ls.latestTask.ID() == id {
 		ls.latestTask = nil
 	}
+	ls.latestLock.Unlock()
 }
 
 func (ls *LocalSuperior) submitCollectorMsg(ctx context.Context, resp *CollectorMsg) (err error) {
@@ -265,6 +274,8 @@ func NewRemoteSuperior(ctx context.Context, reader MessageReader, writer ReportW
 }
 
 func (rs *RemoteSuperior) Subscribe(ctx context.Context, c Collector) {
+	rs.latestLock.Lock()
+	defer rs.latestLock.Unlock()
 	rs.baseSuperior.Subscribe(ctx, c)
 	if task := rs.latestTask; task != nil {
 		rs.Send(ctx, c.ID(), task)
@@ -332,10 +343,12 @@ process:
 			go rs.waitStop()
 			break process
 		}
+		rs.latestLock.Lock()
 		if msg.MsgType() == protocol.MsgTypeRequestQualities {
 			rs.latestTask = msg
 		}
 		rs.Broadcast(rs.ctx, msg)
+		rs.latestLock.Unlock()
 	}
 }
 
